@@ -3,6 +3,7 @@ package note
 import (
 	"fmt"
 	"regexp"
+	"strings"
 
 	"github.com/berquerant/crd/errorx"
 )
@@ -74,12 +75,14 @@ func (n Note) MarshalYAML() (any, error) {
 }
 
 var (
-	noteRegex = regexp.MustCompile(`([A-G])([#b]?)`)
+	noteRegex = regexp.MustCompile(`^([A-G])([#b]?)$`)
+	// the chord grammar accepts the Unicode signs as well
+	noteASCIIAccidentals = strings.NewReplacer("♯", "#", "♭", "b")
 )
 
 func ParseNote(s string) (Note, error) {
 	var defaultNote Note
-	matched := noteRegex.FindAllStringSubmatch(s, -1)
+	matched := noteRegex.FindAllStringSubmatch(noteASCIIAccidentals.Replace(s), -1)
 	if len(matched) == 0 {
 		return defaultNote, errorx.Invalid("Note %s", s)
 	}
